@@ -112,5 +112,12 @@ example : formatLabels (str "m") [(str "k", str "a-b")] dash dash us = formatLab
     control skeleton the model was written against (`Proofs/Skeletons.lean`, one `rfl` per function
     or clause; DESIGN.md §11.6a) -/
 theorem export_skeletons : Skeletons.ExportShape := Skeletons.export_shape
+theorem f_metrics_store_skeletons : Skeletons.F_metrics_storeShape := Skeletons.f_metrics_store_shape
+theorem f_exporter_export_skeletons : Skeletons.F_exporter_exportShape := Skeletons.f_exporter_export_shape
+theorem f_exporter_graphite_skeletons : Skeletons.F_exporter_graphiteShape := Skeletons.f_exporter_graphite_shape
+theorem f_exporter_varz_skeletons : Skeletons.F_exporter_varzShape := Skeletons.f_exporter_varz_shape
+theorem f_exporter_json_skeletons : Skeletons.F_exporter_jsonShape := Skeletons.f_exporter_json_shape
+theorem f_exporter_statsd_skeletons : Skeletons.F_exporter_statsdShape := Skeletons.f_exporter_statsd_shape
+theorem f_exporter_collectd_skeletons : Skeletons.F_exporter_collectdShape := Skeletons.f_exporter_collectd_shape
 
 end MtailVerif.C22
